@@ -59,6 +59,9 @@ pub struct ResSpec {
 pub enum KindSpec {
     Conv { fc: FcSpec, gen: EmSpec, edrv: EmSpec },
     Bel { res: ResSpec, edrv: EmSpec },
+    /// the shipped default hybrid unit; only generated for C19 (alignment) - the energy / limit / split
+    /// properties are stated for conventional and battery-electric units
+    Hybrid,
 }
 #[derive(Serialize, Deserialize, Clone, Debug, PartialEq)]
 pub struct LocoSpec {
@@ -180,6 +183,11 @@ pub fn build_loco(s: &LocoSpec, save_interval: Option<usize>) -> Locomotive {
             let mut l = Locomotive::default_battery_electric_loco();
             l.loco_type = PowertrainType::BatteryElectricLoco(BatteryElectricLoco::new(build_res(res), build_edrv(edrv)));
             l
+        }
+        KindSpec::Hybrid => {
+            let mut l = Locomotive::default_hybrid_electric_loco();
+            l.set_save_interval(save_interval);
+            return l;
         }
     };
     l.pwr_aux_offset = s.aux_offset * uc::W;
@@ -378,6 +386,13 @@ pub fn generate(rng: &mut Rng, focus: &str, thorough: bool) -> Case {
         let b = rng.chance(p_bel);
         gen_loco(rng, b)
     }).collect();
+    if focus == "C19" {
+        for l in locos.iter_mut() {
+            if rng.chance(0.2) {
+                l.kind = KindSpec::Hybrid;
+            }
+        }
+    }
     // sometimes identical units (the shipped shape), sometimes a depleted / full battery among healthy ones
     if n > 1 && rng.chance(0.2) {
         let l0 = locos[0].clone();
@@ -620,7 +635,8 @@ fn edrv_of(l: &Locomotive) -> &ElectricDrivetrain {
     match &l.loco_type {
         PowertrainType::ConventionalLoco(c) => &c.edrv,
         PowertrainType::BatteryElectricLoco(b) => &b.edrv,
-        _ => unreachable!("only conventional and BEL units are generated"),
+        PowertrainType::HybridLoco(h) => &h.edrv,
+        _ => unreachable!("dummy units are not generated"),
     }
 }
 fn is_bel(l: &Locomotive) -> bool {
@@ -707,6 +723,9 @@ fn check_unit_tick(
     engine_on: Option<bool>,
     in_consist: bool,
 ) {
+    if matches!(l.loco_type, PowertrainType::HybridLoco(_)) {
+        return;
+    }
     let st = &l.state;
     let ed = edrv_of(l).state;
     let ed_rating = edrv_of(l).pwr_out_max.value;
@@ -943,6 +962,9 @@ fn check_unit_tick(
 }
 
 fn check_consist_tick(ctx: &mut Ctx, c: &Consist, cr: &mut ConRef, refs: &[UnitRef], dt: f64, p_req: f64, pdct: &str) {
+    if c.loco_vec.iter().any(|l| matches!(l.loco_type, PowertrainType::HybridLoco(_))) {
+        return;
+    }
     let s = &c.state;
     let n = c.loco_vec.len();
     let sum = |f: &dyn Fn(&Locomotive) -> f64| -> f64 { c.loco_vec.iter().map(|l| f(l)).sum() };
@@ -1072,6 +1094,13 @@ fn check_alignment(ctx: &mut Ctx, sys: &Sys, a: &AlignRef, after: &str) {
             PowertrainType::BatteryElectricLoco(b) => {
                 items.push((format!("loco{u}.res"), b.res.state.i, b.res.history.len(), b.res.save_interval, short(&b.res.history.i, b.res.history.temperature_celsius.len())));
                 items.push((format!("loco{u}.edrv"), b.edrv.state.i, b.edrv.history.len(), b.edrv.save_interval, short(&b.edrv.history.i, b.edrv.history.energy_loss.len())));
+            }
+            PowertrainType::HybridLoco(h) => {
+                ctx.hit("probe.align.hybrid_unit");
+                items.push((format!("loco{u}.fc"), h.fc.state.i, h.fc.history.len(), h.fc.save_interval, short(&h.fc.history.i, h.fc.history.engine_on.len())));
+                items.push((format!("loco{u}.gen"), h.gen.state.i, h.gen.history.len(), h.gen.save_interval, short(&h.gen.history.i, h.gen.history.energy_loss.len())));
+                items.push((format!("loco{u}.res"), h.res.state.i, h.res.history.len(), h.res.save_interval, short(&h.res.history.i, h.res.history.temperature_celsius.len())));
+                items.push((format!("loco{u}.edrv"), h.edrv.state.i, h.edrv.history.len(), h.edrv.save_interval, short(&h.edrv.history.i, h.edrv.history.energy_loss.len())));
             }
             _ => {}
         }
@@ -1452,6 +1481,7 @@ pub fn shrink(case: &Case) -> Vec<Case> {
                     changed = true;
                 }
             }
+            KindSpec::Hybrid => {}
         }
         if changed {
             out.push(c);
